@@ -2,7 +2,7 @@ META = {
     "assumptions": ["allocation failure out of scope (--no-malloc-may-fail)"],
     "outside": ["completeness of a whole e2fsck -fn run (block ownership, bitmaps and counts, link counts, reachability, checksums): "
                 "only three self-contained detectors are decided",
-                "ext2fs_check_desc (group descriptor sanity): not built (needs the bitmap back end; see final report)"],
+                ],
 }
 HARNESSES = []
 HARNESSES.append(
@@ -22,10 +22,32 @@ HARNESSES.append(
          configs=[{"KERNEL": 1, "OFF": 12}],
          unwind=4, unwindset=["main.%d:50" % i for i in range(4)], backends=["default", "kissat"],
          bound="block of 48 bytes, every byte symbolic (entry at offset 12 valid per the caller's test)"))
+CD_SRC = ["lib/ext2fs/alloc_sb.c", "lib/ext2fs/closefs.c", "lib/ext2fs/blknum.c", "lib/ext2fs/bitmaps.c", "lib/ext2fs/gen_bitmap64.c",
+          "lib/ext2fs/gen_bitmap.c", "lib/ext2fs/blkmap64_ba.c", "lib/ext2fs/blkmap64_rb.c", "lib/ext2fs/rbtree.c", "lib/ext2fs/bitops.c"]
+HARNESSES.append(
+    dict(name="checkdesc", src="checkdesc.c", extra_src=CD_SRC,
+         funcs=["ext2fs_check_desc", "ext2fs_reserve_super_and_bgd", "ext2fs_super_and_bgd_loc2", "ext2fs_bg_has_super",
+                "ext2fs_allocate_subcluster_bitmap", "ba_new_bmap", "ba_test_bmap", "ba_mark_bmap"],
+         configs=[{"NG": 2, "ITB": 2}, {"NG": 2, "ITB": 2, "FLEX": None}, {"NG": 3, "ITB": 2}, {"NG": 3, "ITB": 2, "FLEX": None}],
+         unwind=5, unwindset=["main.%d:12" % i for i in range(8)] + ["ref_meta.0:5", "ext2fs_check_desc.0:5", "ext2fs_check_desc.1:4", "ext2fs_check_desc.2:5",
+                              "test_root.0:6", "strlen.0:24", "strcpy.0:24", "memset.0:40"],
+         backends=["default", "kissat"],
+         bound="2 and 3 groups of 64 one-KiB blocks, last group 8..64 blocks, 2 inode-table blocks per group, 0..2 reserved GDT blocks, "
+               "sparse_super on/off, flex_bg on/off; all 6 / 9 table locations symbolic 32-bit"))
+HARNESSES.append(
+    dict(name="dirdet", src="dirdet.c", extra_src=["lib/ext2fs/dir_iterate.c"],
+         funcs=["check_dir_block", "check_dot", "check_dotdot", "check_name", "check_filetype", "ext2fs_get_rec_len"],
+         configs=[{"BLK": 36, "BLOCKCNT": 0}, {"BLK": 48, "BLOCKCNT": 0}, {"BLK": 48, "BLOCKCNT": 1}],
+         unwind=5, unwindset=["main.%d:50" % i for i in range(4)] + ["ref_block_ok.0:14", "ext2fs_read_dir_block4.0:50", "check_dir_block.0:6",
+                              "check_name.0:42", "strncmp.0:4"],
+         backends=["default", "kissat"],
+         bound="one directory block of 36 / 48 bytes, every byte symbolic; block 0 (with . and ..) and a later block; inode numbers / counts symbolic"))
 MANIFEST = {
     "text": "Kernel-level slice (partial). Detector completeness against an independent format predicate, bounded-exhaustive: every extent header "
             "violating (magic, entries <= max, max entries fit the node) is rejected by ext2fs_extent_header_verify for every node size; every "
             "first/second directory entry that is not '.'(self) / '..'(non-zero inode) makes check_dot / check_dotdot raise a problem, and with the "
             "answer 'no' they modify nothing. Completeness of a whole e2fsck -fn run is outside.",
-    "note": "Trusted: CBMC's C semantics, the harness's restatement of the on-disk format. ext2fs_check_desc not built.",
+    "note": "Trusted: CBMC's C semantics, the harness's restatement of the on-disk format. Added: ext2fs_check_desc decided exactly (error and error "
+            "code) against an independent placement predicate on 2-3 groups with the real reserve/backup-location code and bit-array bitmap; the "
+            "dirent validity test inside the real check_dir_block decided exactly against the format's tiling predicate under -n.",
 }
